@@ -1,10 +1,10 @@
 #!/bin/sh
-# run every registered quick check under several seeds; print one line per (check, seed)
-cd /verif
+# run every registered quick check under several seeds; one line per (check, seed). Runs in the directory that holds this script's parent.
+cd "$(dirname "$0")/.."
 for seed in ${SEEDS:-2 3 4 5}; do
   for p in $(python3 -c "import json;print(' '.join(c['property_id'] for c in json.load(open('MANIFEST.json'))['checks']))"); do
     out=$(VERIF_SEED=$seed ./check $p --tier quick 2>&1); rc=$?
     echo "seed=$seed $p rc=$rc $(echo "$out" | tail -1 | cut -c1-200)"
-    if [ $rc -ne 0 ]; then echo "$out" | grep -E "VIOLATION|MACHINERY" | head -5 | cut -c1-300; fi
+    if [ $rc -ne 0 ]; then echo "$out" | grep -E "VIOLATION|MACHINERY|SUMMARY" | head -4 | cut -c1-300; fi
   done
 done
